@@ -46,9 +46,9 @@ def run(ctx):
     jobs = [("tree model, menus without wrong-side/oversize rows, all C10 invariants",
              dict(depth=depth, edit=1, invariants=K.INV_C10)),
             ("tree model, two-point entries + partial take-profits (oversize reduce-only exits), all C10 invariants",
-             dict(depth=ctx.pick(8, 10), multi=True, partial=True, edit=ctx.pick(0, 1), maxord=8, invariants=K.INV_C10)),
+             dict(depth=ctx.pick(8, 10), multi=True, oversize=True, edit=ctx.pick(0, 1), maxord=8, invariants=K.INV_C10)),
             ("repaired model (reduce-only replacement, clamped reduce-only fills), full menus, all C10 invariants",
-             dict(depth=ctx.pick(8, 10), multi=True, partial=True, wrong=True, edit=ctx.pick(1, 2), maxord=8, rrepl=True, rclamp=True,
+             dict(depth=ctx.pick(8, 10), multi=True, oversize=True, wrong=True, edit=ctx.pick(1, 2), maxord=8, rrepl=True, rclamp=True,
                   invariants=K.INV_C10)),
             # expected counter-examples of the tree model (named deviation and its consequences); replayed below
             ("tree model, wrong-side rows: ExitsReduceOnly", dict(depth=8, wrong=True, edit=0, invariants=["ExitsReduceOnly"])),
@@ -69,6 +69,7 @@ def run(ctx):
     never = [a for a, (d, g) in rs[0].coverage.items() if g == 0 and a in ("Move", "Fill", "StepA", "StepB", "FlushOne", "Term1", "Term2", "Term3")]
     if never:
         raise Machinery("vacuity: actions never taken in the clean instance: %s" % never)
+    ctx.coverage["non_vacuity_witnesses_shortest_history"] = K.witnesses(ctx, K.WIT_C10, **{k: v for k, v in jobs[0][1].items() if k != "invariants"})
     # ---------------------------------------------------------------- R
     items = []
     for j, (lab, inv, h) in enumerate(cex):
